@@ -141,6 +141,23 @@ def gen_set(r, dots_ok):
             a["refs"].append(("include", rel_spelling(r, a["path"], b["path"], dots_ok), b["path"]))
             b["refs"].append((kind, nm + ".html", tb))
             a["refs"].append((kind, nm + ".html", ta))
+    # the base template itself includes something: its context carries `next`, the included template's must not
+    if r.random() < 0.5:
+        bypath = {f["path"]: f for f in files}
+
+        def reaches_inheriting(p, seen):
+            if p in seen or p not in bypath:
+                return False
+            seen.add(p)
+            f = bypath[p]
+            if f["inherit"]:
+                return True
+            return any(t is not None and reaches_inheriting(t, seen) for _, _, t in f["refs"])
+
+        cands = [f for f in files[:-1] if not reaches_inheriting(f["path"], set()) and f["path"] != (base["shared"] or (None, None, None))[2]]
+        if cands:
+            tgt = r.choice(cands)
+            base["refs"].append((r.choice(["include", "api_inc"]), rel_spelling(r, base["path"], tgt["path"], dots_ok), tgt["path"]))
     return files
 
 
